@@ -2,6 +2,7 @@ import Driver.Util
 import Driver.Ops.Label
 import EncodingRs.Model.Decoder
 import EncodingRs.Model.L1
+import EncodingRs.Model.MaxLen
 import EncodingRs.Model.Unicode
 /-!
 Driver operation `dec`: replays a whole history of `Decoder` calls made by the
@@ -11,7 +12,9 @@ harness against the model and checks that every call is *admissible*
   dec <ENC> <off|sniff|remove> <u8|u16> <raw|repl> <hex stream> <call>;<call>;…  => ok <encoding() at the end>
 
   <call> = n=<src len>,c=<capacity>,l=<0|1>,r=<I|O|P|M<len>.<after>>,rd=<read>,w=<hex units>[,he=<0|1>][,lc=<n|->]
-           (lc = latin1_byte_compatible_up_to(src) asked just before the call)
+           (lc = latin1_byte_compatible_up_to(src) asked just before the call;
+            q=<a>/<b>/<c> = max_utf8_buffer_length(n) / max_utf8_buffer_length_without_replacement(n) /
+            max_utf16_buffer_length(n) asked just before the call, `-` = None)
 
 Each call is made on `stream[consumed .. consumed+n]` where `consumed` is the sum
 of the `rd` of the earlier calls.  The model answers `ok <ENC>` or
@@ -48,6 +51,8 @@ structure CallRec where
   hadErrors : Option Bool
   /-- `latin1_byte_compatible_up_to(src)` asked before the call: `none` = not recorded -/
   lc : Option (Option Nat)
+  /-- the three `max_*` queries asked before the call for `n` bytes: utf8 / utf8 without replacement / utf16 -/
+  q : Option (Option Nat × Option Nat × Option Nat)
 
 def parseKv (s : String) : Option (String × String) :=
   match s.splitOn "=" with
@@ -74,7 +79,15 @@ def parseCall (k : Sink) (s : String) : Option CallRec := do
     | none => some none
     | some "-" => some (some none)
     | some v => (v.toNat?).map (fun x => some (some x))
-  pure ⟨n, cap, l == "1", r, rd, units, he, lc⟩
+  let parseQ (x : String) : Option (Option Nat) := if x == "-" then some none else (x.toNat?).map some
+  let q ← match get "q" with
+    | none => some none
+    | some v => match v.splitOn "/" with
+      | [a, b, c] => do
+        let a ← parseQ a; let b ← parseQ b; let c ← parseQ c
+        pure (some (a, b, c))
+      | _ => none
+  pure ⟨n, cap, l == "1", r, rd, units, he, lc, q⟩
 
 def showRes : Res → String
   | .inputEmpty => "I"
@@ -149,7 +162,8 @@ partial def checkRepl {F : Fam} (k : Sink) (src : List Nat) (c : CallRec)
   tryAll [] (budgets1.flatMap fun b1 => (budgets2 m).map fun b2 => (b1, b2))
 
 def runDecHistory {F : Fam} (k : Sink) (repl : Bool) (nomIdent : String) (stream : List Nat)
-    (calls : List CallRec) (d0 : Decoder F) (l1f : Decoder F → List Nat → Option Nat) : String :=
+    (calls : List CallRec) (d0 : Decoder F) (l1f : Decoder F → List Nat → Option Nat)
+    (maxf : Decoder F → Nat → Option Nat × Option Nat × Option Nat) : String :=
   let rec go (i : Nat) (consumed : Nat) (d : Decoder F) : List CallRec → String
     | [] => s!"ok {curIdent nomIdent d.cur}"
     | c :: t =>
@@ -159,6 +173,10 @@ def runDecHistory {F : Fam} (k : Sink) (repl : Bool) (nomIdent : String) (stream
         | none => true
         | some v => l1f d src == v
       if !lcOk then s!"call#{i}: latin1_byte_compatible_up_to: model={l1f d src}" else
+      let qOk := match c.q with
+        | none => true
+        | some v => maxf d c.n == v
+      if !qOk then s!"call#{i}: max_*_buffer_length queries: model={maxf d c.n}" else
       let r := if repl then checkRepl k src c d 0 [] false (src.length + 8) else checkRaw k d src c
       match r with
       | none => s!"call#{i}: not admissible (n={c.n} cap={c.cap} last={c.last} impl={c.res} read={c.read} units={c.units.length})"
@@ -186,8 +204,11 @@ def dec (op : String) (args : List String) : Option (Option String) :=
     let stream ← parseHex hexStream
     let calls ← if callsS == "." then some [] else (callsS.splitOn ";").mapM (parseCall k)
     let F := famOfVariant e.variant
-    pure (runDecHistory k repl e.ident stream calls (Decoder.new F (nominalOf e.variant) bomH)
-      (Decoder.l1 e.variant))
+    let nom := nominalOf e.variant
+    pure (runDecHistory k repl e.ident stream calls (Decoder.new F nom bomH)
+      (Decoder.l1 e.variant)
+      (fun d n => (Decoder.maxLen .utf8 e.variant nom d n, Decoder.maxLen .utf8NoRepl e.variant nom d n,
+        Decoder.maxLen .utf16 e.variant nom d n)))
   | "dec", _ => some none
   | _, _ => none
 
